@@ -225,3 +225,85 @@ def near_tie(x_block, D, patch_len, n_lead=1, rel=1e-3):
     unequal = np.abs(t1 - t2).max(-1) > 1e-12 * np.maximum(1.0, top)
     close = (top - second) <= rel * np.maximum(top, 1e-30)
     return bool(np.any(close & unequal))
+
+
+# ---- ConvContract configurations (C06 / C11) -------------------------------------------------
+def gen_layer_cfg(rng, D, equivariant_domain=True, allow_stride=False, group="B"):
+    """A random ConvContract configuration (JSON-able) inside the documented domain."""
+    from .ref import conv as rconv
+
+    for _ in range(100):
+        M = int([3, 3, 3, 2, 5][int(rng.integers(5))]) if D == 2 else int([3, 3, 2][int(rng.integers(3))])
+        kmax_t = 2 if D == 2 else 1
+        if M == 5:
+            kmax_t = 1
+        pool = [(k, p) for k in range(kmax_t + 1) for p in (0, 1)]
+        n_in, n_out = int(rng.integers(1, 4)), int(rng.integers(1, 4))
+        ins = [pool[i] for i in rng.choice(len(pool), size=min(n_in, len(pool)), replace=False)]
+        outs = [pool[i] for i in rng.choice(len(pool), size=min(n_out, len(pool)), replace=False)]
+        cin = rng.permutation([1, 2, 3, 4])[: len(ins)]
+        cout = rng.permutation([1, 2, 3, 4])[: len(outs)]
+        in_sig = [[list(t), int(c)] for t, c in zip(ins, cin)]
+        out_sig = [[list(t), int(c)] for t, c in zip(outs, cout)]
+        ks = list(range(0, 2 * kmax_t + 1))
+        drop = None
+        if rng.integers(0, 4) == 0:
+            drop = [int(rng.integers(0, 2 * kmax_t + 1)), int(rng.integers(0, 2))]
+        bias = ["auto", "mean", "scalar", True, False][int(rng.integers(5))]
+        even = M % 2 == 0
+        lhs = None
+        if rng.integers(0, 4) == 0:
+            lhs = [2] * D
+        pads = ["VALID", "explicit"] if even or lhs is not None else [None, "TORUS", "SAME", "VALID", "explicit", None, "TORUS", "SAME"]
+        pk = pads[int(rng.integers(len(pads)))]
+        padding = pk
+        if pk == "explicit":
+            q = int(rng.integers(0, 3)) if lhs is None else int(rng.integers(1, 3))
+            padding = [[q, q]] * D
+        rhs = int(rng.integers(1, 3))
+        rhs = rhs if rng.integers(0, 2) else [rhs] * D
+        stride = 1
+        if allow_stride and rng.integers(0, 3) == 0:
+            stride = int(rng.integers(1, 3)) if rng.integers(0, 2) else [int(v) for v in rng.integers(1, 3, size=D)]
+        tor_kind = ["all", "none", "mixed"][int(rng.integers(3))]
+        torus = [True] * D if tor_kind == "all" else ([False] * D if tor_kind == "none" else [bool(v) for v in rng.integers(0, 2, size=D)])
+        hi = 6 if D == 2 else 4
+        sp = [int(v) for v in rng.integers(3 if not even else 2, hi + 1, size=D)]
+        if rng.integers(0, 3) == 0:
+            sp = [sp[0]] * D
+        pad_t = tuple(tuple(p) for p in padding) if isinstance(padding, list) else padding
+        try:
+            osp = rconv.out_extents(tuple(sp), (M,) * D, tuple(torus), stride if isinstance(stride, int) else tuple(stride), pad_t, None if lhs is None else tuple(lhs), rhs if isinstance(rhs, int) else tuple(rhs))
+        except ValueError:
+            continue
+        if min(osp) < 1 or int(np.prod(osp)) > 600:
+            continue
+        return {"D": D, "M": M, "in_sig": in_sig, "out_sig": out_sig, "ks": ks, "drop": drop, "bias": bias, "padding": padding, "pad_kind": str(pk), "lhs": lhs, "rhs": rhs, "stride": stride, "torus": torus, "torus_kind": tor_kind, "sp": sp, "group": group}
+    raise RuntimeError("no layer cfg")
+
+
+def sig_of(js):
+    return [((int(t[0]), int(t[1])), int(c)) for t, c in js]
+
+
+def build_bank(cfg, source="ref"):
+    import ginjax.geometric as geom
+
+    D, M = cfg["D"], cfg["M"]
+    full = (ref_bank if source == "ref" else lib_bank)(D, M, tuple(cfg["ks"]), (0, 1), cfg.get("group", "B"))
+    drop = tuple(cfg["drop"]) if cfg.get("drop") else None
+    data = {t: v for t, v in full.data.items() if t != drop}
+    return geom.MultiImage(data, D, True)
+
+
+def build_layer(cfg, bank, key_int):
+    import jax
+    import ginjax.ml as ml
+
+    padding = cfg["padding"]
+    if isinstance(padding, list):
+        padding = tuple((int(a), int(b)) for a, b in padding)
+    lhs = None if cfg["lhs"] is None else tuple(cfg["lhs"])
+    rhs = cfg["rhs"] if isinstance(cfg["rhs"], int) else tuple(cfg["rhs"])
+    stride = cfg["stride"] if isinstance(cfg["stride"], int) else tuple(cfg["stride"])
+    return ml.ConvContract(signature(sig_of(cfg["in_sig"])), signature(sig_of(cfg["out_sig"])), bank, cfg["bias"], stride, padding, lhs, rhs, jax.random.PRNGKey(key_int))
